@@ -1,0 +1,26 @@
+//go:build verif
+
+package compose
+
+// Contracts for the compose plugin (C16, C01, C09), read by /verif's gvc (comment-only file).
+
+//@ func (g *gen) Add(name string, typs []types.Type) (r string, err error)
+//@ param typs: len=0,1,2,3
+//@ param name: classes=Ident
+
+//@ func (g *gen) Generate(typs []types.Type) (err error)
+//@ param typs: len=2,3
+
+//@ func (g *gen) genError(typs []types.Type) (err error)
+//@ param typs: len=2,3
+//@ max-arity: 2
+//@ emits: decls
+//@ serves: compose typs=typs
+//@ o-sig: () (r func())
+//@ o-header: unchecked
+//@ o-fork: when len(typs)=2 when nresults(typs[1])>=2 nilable result0(typs[1])
+//@ o-fork: when len(typs)=3 when nresults(typs[2])>=2 nilable result0(typs[2])
+//@ o-requires: f0 != nil && f1 != nil
+//@ o-requires: when len(typs)=3 f2 != nil
+//@ o-closure: cr0 cr1 cr2 cr3
+//@ o-closure-ensures: [stages-in-order-stop-at-first-error] composeSpec()
